@@ -527,6 +527,9 @@ func describe(rv reflect.Value, depth int) string {
 	case DropV:
 		return "DropV(" + describe(reflect.ValueOf(x.X), depth+1) + ")"
 	case *DropP:
+		if x == nil {
+			return "(*DropP)(nil)"
+		}
 		return "*DropP(" + describe(reflect.ValueOf(x.X), depth+1) + ")"
 	case []byte:
 		return "[]byte(" + strconv.Quote(core.Trunc(string(x), 60)) + ")"
